@@ -252,13 +252,13 @@ func loadFindings() []finding {
 	sc := bufio.NewScanner(f)
 	for sc.Scan() {
 		line := strings.TrimSpace(sc.Text())
-		// finding: property=C09 key=<stable key> | <what fails>
+		// finding: property=C09 key=<stable key> :: <what fails>
 		if !strings.HasPrefix(line, "finding:") {
 			continue // "fixed:" entries and comments suppress nothing
 		}
 		rest := strings.TrimSpace(strings.TrimPrefix(line, "finding:"))
 		var fd finding
-		parts := strings.SplitN(rest, "|", 2)
+		parts := strings.SplitN(rest, " :: ", 2)
 		if len(parts) == 2 {
 			fd.text = strings.TrimSpace(parts[1])
 		}
